@@ -33,8 +33,8 @@ type secNode struct {
 }
 
 type secWorld struct {
-	kind  string // p2pke | quic
-	nodes []*secNode
+	kind   string // p2pke | quic
+	nodes  []*secNode
 	mkAddr func(id p2p.PeerID, inner stack.Addr) stack.Addr
 	idOf   func(a stack.Addr) p2p.PeerID
 }
@@ -103,10 +103,14 @@ func buildSecure(kind, base string, n int, rejects []map[int]bool, wrap bool) (*
 		w.nodes = append(w.nodes, nd)
 	}
 	if kind == "p2pke" {
-		w.mkAddr = func(id p2p.PeerID, inner stack.Addr) stack.Addr { return p2pkeswarm.Addr[stack.Addr]{ID: id, Addr: inner} }
+		w.mkAddr = func(id p2p.PeerID, inner stack.Addr) stack.Addr {
+			return p2pkeswarm.Addr[stack.Addr]{ID: id, Addr: inner}
+		}
 		w.idOf = func(a stack.Addr) p2p.PeerID { return a.(p2pkeswarm.Addr[stack.Addr]).ID }
 	} else {
-		w.mkAddr = func(id p2p.PeerID, inner stack.Addr) stack.Addr { return quicswarm.Addr[stack.Addr]{ID: id, Addr: inner} }
+		w.mkAddr = func(id p2p.PeerID, inner stack.Addr) stack.Addr {
+			return quicswarm.Addr[stack.Addr]{ID: id, Addr: inner}
+		}
 		w.idOf = func(a stack.Addr) p2p.PeerID { return a.(quicswarm.Addr[stack.Addr]).ID }
 	}
 	return w, nil
